@@ -52,6 +52,10 @@ type Sched struct {
 	// (lowest runnable thread id first). Used for long protocol runs where free context switches alone blow up.
 	AllDev bool
 	onPoint    func()
+	// OnStuck, if set, is called when no thread is enabled while some are unfinished. It may change state that
+	// enables threads (typically: cancel the contexts of parties starved by a peer's abort) and return true to
+	// continue; returning false reports the deadlock.
+	OnStuck func() bool
 }
 
 type chanState struct {
@@ -145,6 +149,17 @@ func (s *Sched) dispatch() *thread {
 	}
 	s.Points++
 	en := s.enabled()
+	if len(en) == 0 && s.OnStuck != nil {
+		unfinished := false
+		for _, t := range s.threads {
+			if !t.done {
+				unfinished = true
+			}
+		}
+		if unfinished && s.OnStuck() {
+			en = s.enabled()
+		}
+	}
 	if len(en) == 0 {
 		for _, t := range s.threads {
 			if !t.done {
@@ -415,6 +430,28 @@ func (c *mctx) Deadline() (time.Time, bool) { return time.Time{}, false }
 func (c *mctx) Done() <-chan struct{}       { return c.done }
 func (c *mctx) Err() error                  { return c.err }
 func (c *mctx) Value(k any) any             { return c.parent.Value(k) }
+
+// CancelNow cancels an mcrt context without a scheduling point (for use inside OnStuck, outside any thread).
+func CancelNow(ctx context.Context) {
+	c, ok := ctx.(*mctx)
+	if !ok || c.err != nil {
+		return
+	}
+	c.err = context.Canceled
+	S.st(c.done).closed = true
+	close(c.done)
+}
+
+// Blocked lists the unfinished threads and what they wait for.
+func (s *Sched) Blocked() string {
+	out := ""
+	for _, t := range s.threads {
+		if !t.done {
+			out += fmt.Sprintf(" %s[%s]", t.name, t.desc)
+		}
+	}
+	return out
+}
 
 // WithCancel replaces context.WithCancel in the instrumented code and in harnesses. Only parents that can never
 // be cancelled (context.Background/TODO) or other mcrt contexts that are not yet cancelled are supported;
